@@ -73,7 +73,7 @@ def step (st : Unit) (j : Json) : Unit × List String :=
       let L : LdEnv := { keyAlg := fun _ => if jStr v "keyalg" == "" then none else some (jStr v "keyalg"),
                          verifiesDetached := fun _ _ => jBool v "verified" }
       let didOf := fun (kid : String) => (kid.splitOn "#").headD ""
-      vcJsonLdProof E L (jStr j "issuer") (jStr v "vm") didOf (jBool v "validat") (jBool v "canon") (jNat v "parts") (jBool v "sigdecodes")
+      vcJsonLdProof E L (jBool v "proofobj") (jStr j "issuer") (jStr v "vm") didOf (jBool v "validat") (jBool v "canon") (jNat v "parts") (jBool v "sigdecodes")
     | "parsejws" =>
       let found := jBools v "keyfound"
       let ver := jBools v "verified"
